@@ -126,4 +126,37 @@ theorem stdin_lineno_eq_file_lineno (needs : Str → Bool) (lines : List Str) (h
 
 example : offsets 0 ["a\nb\n".toList, "c\n".toList, "d\n".toList] = [0, 2, 3] := by decide
 
+/-- A chunk may end in several newlines (a backslash-newline continuation whose next line is empty): every one of
+them is a line of the input and is counted. -/
+example : offsets 0 ["echo joined \\\n\n".toList, "\n".toList, "echo $LINENO\n".toList] = [0, 2, 3] := by decide
+
+/-- Counting the lines of the chunk *after* stripping its trailing newlines (`trim_end_matches('\n')` before
+`lines().count().max(1)`) is not the same thing: the theorem above is false for that count. -/
+def lineCountTrimmed (s : Str) : Nat := lineCount ((s.reverse.dropWhile (· = '\n')).reverse)
+
+def offsetsTrimmed : Nat → List Str → List Nat
+  | _, [] => []
+  | off, c :: cs => off :: offsetsTrimmed (off + lineCountTrimmed c) cs
+
+theorem trimmed_line_count_breaks_lineno :
+    ¬ (∀ (cs : List Str) (k : Nat), k < cs.length → (∀ c, c ∈ cs → ∃ b : Str, c = b ++ ['\n']) →
+        (offsetsTrimmed 0 cs)[k]? = some (((cs.take k).flatten).count '\n')) := by
+  intro h
+  have := h ["a\\\n\n".toList, "b\n".toList] 1 (by decide)
+    (by intro c hc
+        simp only [List.mem_cons, List.mem_nil_iff, or_false] at hc
+        rcases hc with rfl | rfl
+        · exact ⟨"a\\\n".toList, by decide⟩
+        · exact ⟨"b".toList, by decide⟩)
+  revert this
+  decide
+
+/-- …whereas the count brush uses satisfies it for every list of newline-terminated chunks, whatever number of
+newlines each ends in. -/
+theorem line_count_exact_for_nl_chunks (cs : List Str) (hcs : ∀ c, c ∈ cs → ∃ b : Str, c = b ++ ['\n'])
+    (k : Nat) (hk : k < cs.length) :
+    (offsets 0 cs)[k]? = some (((cs.take k).flatten).count '\n') := by
+  have := offsets_get cs (fun c hc => by obtain ⟨b, rfl⟩ := hcs c hc; exact lineCount_nl b) 0 k hk
+  simpa using this
+
 end BrushVerif.C15
